@@ -59,7 +59,7 @@ pub enum Fail {
     Died(String),
 }
 
-pub const MARKER_ADDR: u32 = 0xfffff1;
+pub const MARKER_ADDR: u32 = 0xfffff0;
 
 pub struct Env {
     pub bin: String,
@@ -86,10 +86,15 @@ pub fn beast(frame: &[u8], n: u64) -> Vec<u8> {
     o
 }
 
-fn marker(k: u32) -> Vec<u8> {
-    // identification squitters of an address no scenario uses, each with another call sign: distinct frames
+/// is this the displayed address of a marker?
+pub fn is_marker(icao24: &Value) -> bool {
+    icao24.as_str().and_then(|s| u32::from_str_radix(s, 16).ok()).map(|a| (MARKER_ADDR..MARKER_ADDR + 4).contains(&a)).unwrap_or(false)
+}
+
+fn marker(source: usize, k: u32) -> Vec<u8> {
+    // identification squitters of addresses no scenario uses (one per source), each with another call sign: distinct frames
     let c = |d: u32| 48 + (d % 10) as u8;
-    enc::df17(5, MARKER_ADDR, &enc::me_ident(4, 0, &[13, 1, 18, 11, c(k / 1000), c(k / 100), c(k / 10), c(k)]))
+    enc::df17(5, MARKER_ADDR + source as u32, &enc::me_ident(4, 0, &[13, 1, 18, 11, c(k / 1000), c(k / 100), c(k / 10), c(k)]))
 }
 
 fn free_port() -> Option<u16> {
@@ -235,13 +240,17 @@ pub fn play(env: &Env, sc: &Scenario, tag: &str) -> Result<Outcome, Fail> {
     std::thread::sleep(Duration::from_millis(sc.dedup_ms as u64 + 30));
     let mut table = None;
     for k in 0..400u32 {
-        n += 1;
-        let b = beast(&marker(k), n);
-        if conns[0].write_all(&b).is_err() {
-            if let Ok(Some(st)) = child.0.try_wait() {
-                return Err(Fail::Died(format!("exited with {st} after the scenario's frames")));
+        // one marker per source: receptions are stamped and forwarded by one task per source, so only a source's own
+        // marker tells that its earlier frames have gone through
+        for (i, c) in conns.iter_mut().enumerate() {
+            n += 1;
+            let b = beast(&marker(i, k), n);
+            if c.write_all(&b).is_err() {
+                if let Ok(Some(st)) = child.0.try_wait() {
+                    return Err(Fail::Died(format!("exited with {st} after the scenario's frames")));
+                }
+                return Err(skip("write to jet1090 failed"));
             }
-            return Err(skip("write to jet1090 failed"));
         }
         std::thread::sleep(Duration::from_millis(sc.dedup_ms as u64 / 2 + 25));
         if let Ok(Some(st)) = child.0.try_wait() {
@@ -249,8 +258,8 @@ pub fn play(env: &Env, sc: &Scenario, tag: &str) -> Result<Outcome, Fail> {
         }
         if k % 2 == 1 {
             if let Some(t) = http_get_all(web) {
-                let count = t.as_array().and_then(|a| a.iter().find(|e| e["icao24"] == format!("{MARKER_ADDR:06x}"))).and_then(|e| e["count"].as_u64()).unwrap_or(0);
-                if count >= 2 {
+                let done = (0..conns.len()).all(|i| t.as_array().and_then(|a| a.iter().find(|e| e["icao24"] == format!("{:06x}", MARKER_ADDR + i as u32))).and_then(|e| e["count"].as_u64()).unwrap_or(0) >= 2);
+                if done {
                     table = Some(t);
                     break;
                 }
